@@ -53,6 +53,9 @@ def main():
         P = int(a[1]); a = a[2:]
     seeds = a or sorted(PLAN)
     jobs = [(s, c, x) for s in seeds for c, x in PLAN[s]]
+    # never run the same check twice at once (the runs would share /verif/logs/<check>-seeded): with P workers taking jobs
+    # in order, put jobs of the same check at least P positions apart
+    jobs.sort(key=lambda j: j[0][-1] + j[1])
     res = {}
     with ThreadPoolExecutor(P) as ex:
         for seed, r in ex.map(run, jobs):
